@@ -212,6 +212,14 @@ def r1a(ctx: RuleCtx) -> None:
             it = norm(e.generators[0].iter)
             k, a = one(e.elt, e.generators[0].target.id)
             return [(k, a if it == 'self.names' or a != 'each name' else f'each({it})')]
+        if isinstance(e, ast.Call) and call_name(e) == 'zip' and len(e.args) == 2 and not e.keywords and isinstance(e.args[0], ast.Call) \
+                and (call_name(e.args[0]) or '').split('.')[-1] == 'repeat' and len(e.args[0].args) == 1:
+            # zip(itertools.repeat(f), xs): the pair (f, x) for every x
+            k, a = one(ast.Tuple(elts=[e.args[0].args[0], ast.Name(id='_elem', ctx=ast.Load())], ctx=ast.Load()), '_elem')
+            return [(k, a if norm(e.args[1]) == 'self.names' else f'each({norm(e.args[1])})')]
+        if isinstance(e, ast.Call) and call_name(e) == 'map' and len(e.args) == 2 and isinstance(e.args[0], ast.Lambda) and len(e.args[0].args.args) == 1:
+            k, a = one(e.args[0].body, e.args[0].args.args[0].arg)
+            return [(k, a if norm(e.args[1]) == 'self.names' or a != 'each name' else f'each({norm(e.args[1])})')]
         if isinstance(e, ast.BinOp) and isinstance(e.op, ast.Add):
             return items(e.left, lst, cur) + items(e.right, lst, cur)
         if isinstance(e, ast.Call) and call_name(e) in ('list', 'tuple') and len(e.args) == 1 and not e.keywords:
@@ -383,9 +391,8 @@ def r1c(ctx: RuleCtx) -> None:
             return 'override found'
         if _is_override_dep(e) or _is_disk(e):
             return 'object'
-        if isinstance(e, ast.Call) and call_method(e) == '_check_version' and len(e.args) == 2 \
-                and norm(e.args[0]) == "stringlistify(ARG2.get('version', []))" and call_method(e.args[1]) == 'get_version':
-            return 'version ok'
+        if isinstance(e, ast.Call) and call_method(e) == '_check_version' and len(e.args) == 2 and call_method(e.args[1]) == 'get_version':
+            return 'version ok' if norm(e.args[0]) == "stringlistify(ARG2.get('version', []))" else 'another list checked against the version'
         if a.args[0] == 'self.forcefallback':
             return 'force'
         if a.args[0] == 'self.subproject_name':
@@ -490,12 +497,15 @@ def _source_label_(a: Atom) -> T.Optional[str]:
     """which documented source of `forcefallback` / `nofallback` an atom of lookup()'s prologue is"""
     if a == _truth('ARG2'):
         return 'force_fallback argument'
-    modes = {'WrapMode.forcefallback': 'wrap_mode=forcefallback', 'WrapMode.nofallback': 'wrap_mode=nofallback'}
+    def mode(x: str) -> T.Optional[str]:          # a comparison of the wrap mode with any member of the enum is a fact this table knows
+        return 'wrap_mode=' + x.split('.', 1)[1] if x.startswith('WrapMode.') and x.count('.') == 1 else None
     if a.kind == 'cmp' and a.args[0] == 'eq' and WM in a.args[1:]:
         other = [x for x in a.args[1:] if x != WM]
-        return modes.get(other[0] if other else '')
+        return mode(other[0]) if other else None
     if a.kind == 'is' and a.args[0] == WM:
-        return modes.get(a.args[1])
+        return mode(a.args[1])
+    if a.kind == 'truth' and a.args[0] in (FFOR, f'bool({FFOR})'):
+        return 'force_fallback_for is not empty'      # (known, and not one of the documented sources)
     if a.kind == 'in' and a.args[1] == FFOR:
         return {'each(self.names)': 'a name in force_fallback_for', 'self.subproject_name': 'subproject in force_fallback_for',
                 PROVIDER + '[0]': 'provider in force_fallback_for'}.get(a.args[0])
@@ -553,7 +563,9 @@ def r1d(ctx: RuleCtx) -> None:
     fn = _fn(mod, qn)
     loop = _candidate_loop(fn)
     pre = _flag_prologue(fn, loop)
-    tab = symtable(fn, qn + ':flags', pre, drop=lambda a: _source_label(a) is None and a not in GATING)
+    adoption_only = {Atom('is', ('self.allow_fallback', 'True')), _truth('self.forcefallback'), _truth("ARG1.get('required', True)"),
+                     _truth(f'self._get_subproject({PROVIDER}[0])'), _truth("ARG1.get('modules', [])"), _truth('self._get_candidates()')}
+    tab = symtable(fn, qn + ':flags', pre, drop=lambda a: a in adoption_only)
     sem = dict(GATING)
     for a in tab.atoms():
         lab = _source_label(a)
@@ -769,10 +781,9 @@ def r1g(ctx: RuleCtx) -> None:
             return 'variable exists'
         if isinstance(e, ast.Call) and call_method(e) == 'found' and isinstance(e.func, ast.Attribute) and var_of(e.func.value):
             return 'variable found'
-        if isinstance(e, ast.Call) and call_method(e) == '_check_version' and len(e.args) == 2 \
-                and norm(e.args[0]) == "stringlistify(ARG3.get('version', []))" and call_method(e.args[1]) == 'get_version' \
+        if isinstance(e, ast.Call) and call_method(e) == '_check_version' and len(e.args) == 2 and call_method(e.args[1]) == 'get_version' \
                 and var_of(e.args[1].func.value):  # type: ignore[attr-defined]
-            return 'version ok'
+            return 'version ok' if norm(e.args[0]) == "stringlistify(ARG3.get('version', []))" else 'another list checked against the version'
         return None
     sem = _label_atoms(tab, cls)
     LABELS = ('configured', 'overridden', 'variable given', 'wrap names a variable', 'variable found', 'version ok')
